@@ -266,7 +266,6 @@ func init() {
 				return []*engine.Scenario{
 					c02Restart(tier),
 					c02UnbondingValidator(tier),
-				c02UnbondingValidator(tier),
 					c02LastAsset(tier),
 					c02Scenario("c02-unbonding3u", 3*U, tier, []int{4, 2, 1, 5, 0}, 10),
 					c02Scenario("c02-unbonding1u", 1*U, tier, []int{4, 2, 1, 4, 0}, 9),
